@@ -83,9 +83,9 @@ def loop_inv(it, env, idx, ctx):
         le_none, le = v.f["last_exc"]
         lr_none, lr = v.f["last_result"]
         if le is not None:
-            conj.append(z3.Implies(cs == z3.StringVal("exception"), z3.And(z3.Not(le_none), le == g["last_op_ident"], g["last_op_kind"] == 2)))
+            conj.append(z3.Implies(cs == z3.StringVal("exception"), z3.And(z3.Not(le_none), le == g["fail_ident"], g["fail_ident"] == g["last_op_ident"], g["last_op_kind"] == 2)))
         if lr is not None:
-            conj.append(z3.Implies(cs == z3.StringVal("result"), z3.And(z3.Not(lr_none), lr == g["last_op_ident"], g["last_op_kind"] == 1)))
+            conj.append(z3.Implies(cs == z3.StringVal("result"), z3.And(z3.Not(lr_none), lr == g["fail_ident"], g["fail_ident"] == g["last_op_ident"], g["last_op_kind"] == 1)))
     ps_none, ps = v.f["prev_sleep"]
     if ps is not None:
         conj.append(z3.And(z3.Not(ps_none), ps.v == g["last_retry_sleep"]))
@@ -331,7 +331,7 @@ def stop_obligations(it, w, key, v, how):
                         z3.And(z3.Not(g["term_class_none"]), g["term_class"] == g["last_cls"],
                                z3.Not(g["term_cause_none"]), g["term_cause"] == g["last_cause"],
                                z3.Implies(g["last_cause"] == z3.StringVal("exception"),
-                                          z3.And(z3.Not(g["term_exc_none"]), g["term_exc"] == g["last_op_ident"])),
+                                          z3.And(z3.Not(g["term_exc_none"]), g["term_exc"] == g["fail_ident"])),
                                z3.Implies(g["last_cause"] == z3.StringVal("result"), g["term_exc_none"]))), prop="C14")
     for rname, evname in EVENT_OF_REASON.items():
         p.oblige(f"{key}/exit/C14/event-name-matches-reason/{rname}",
@@ -367,9 +367,13 @@ def delivered(it, w, key, v, *, stop_reason, attempts, last_class, last_exceptio
     is_result = z3.And(g["last_op_was_failure"], g["last_cause"] == z3.StringVal("result"))
     is_excc = z3.And(g["last_op_was_failure"], g["last_cause"] == z3.StringVal("exception"))
     p.oblige(f"{base}/result-failure=>last_result-is-the-final-result",
-             z3.Implies(is_result, z3.And(z3.Not(rn), rvv == g["last_op_ident"], en) if rvv is not None else False), prop=prop)
+             z3.Implies(is_result, z3.And(z3.Not(rn), rvv == g["fail_ident"], en) if rvv is not None else False), prop=prop)
     p.oblige(f"{base}/exception-failure=>last_exception-is-the-final-exception",
-             z3.Implies(is_excc, z3.And(z3.Not(en), evv == g["last_op_ident"], rn) if evv is not None else False), prop=prop)
+             z3.Implies(is_excc, z3.And(z3.Not(en), evv == g["fail_ident"], rn) if evv is not None else False), prop=prop)
+    if sval is not None:
+        R_ = lambda n: it.enum_const(w.sr, n)
+        p.oblige(f"{base}/final-failure-is-the-last-attempts-unless-aborted",
+                 z3.Implies(z3.And(g["last_op_was_failure"], sval != R_("ABORTED")), g["fail_ident"] == g["last_op_ident"]), prop=prop)
     if sval is not None:
         p.oblige(f"{base}/next_sleep_s-iff-SCHEDULED",
                  z3.And(z3.Not(sn), z3.Not(nn) == (sval == R("SCHEDULED")),
